@@ -69,7 +69,7 @@ def gen(rng, tier):
     # state has squared norm far below the truncation threshold, and must still be the renormalised L|psi>
     for order in (1, 2):
         yield {"kind": "simrun", "sub": rng.randrange(1 << 30), "L": 4, "n": 15, "dt": 0.1, "order": order, "samp": True,
-               "jumps": [{"m": 10, "site": 1, "two": True, "op": "user", "scale": rng.choice([1e-7, 1e-8])}]}
+               "jumps": [{"m": 10, "site": 1, "two": True, "op": "user", "scale": rng.choice([1e-6, 1e-7, 1e-8])}]}
     for k in plan:
         yield {"kind": k, "sub": rng.randrange(1 << 30)}
 
@@ -320,7 +320,7 @@ def build_jumps(rng, L, n, dt, times, spec=None):
             mat = np.array([[complex(rng.uniform(-1, 1), rng.uniform(-1, 1)) for _ in range(dim)] for _ in range(dim)])
             mat = mat + 1.5 * np.eye(dim)      # keep it well away from annihilating the state
             # the operator's scale is irrelevant after the renormalisation: a tiny or huge user matrix must give the same values
-            mat = mat * it.setdefault("scale", rng.choice([1.0, 1.0, 1e-5, 1e-7, 1e-7, 1e3]))
+            mat = mat * it.setdefault("scale", rng.choice([1.0, 1.0, 1e-5, 1e-6, 1e-7, 1e3]))
             d["name"] = "user"
             d["matrix"] = mat
         elif it["op"] == "lib":
